@@ -114,7 +114,8 @@ func (db *DB) Select(query interface{}, args ...interface{}) (tx *DB) {
 
 	switch v := query.(type) {
 	case []string:
-		tx.Statement.Selects = v
+		// a list of the statement's own: what follows is appended to it, and the caller may use its slice again
+		tx.Statement.Selects = append(make([]string, 0, len(v)+len(args)), v...)
 
 		for _, arg := range args {
 			switch arg := arg.(type) {
